@@ -238,10 +238,12 @@ func corruptions(p string, out map[string]bool) {
 var c10Bodies = []string{"a", "b", "0", "1", "2", "10", "x", ""}
 
 // pathAlphabet returns every path of 1..k segments over {.,#} x bodies, plus each with the leading sigil dropped.
-func pathAlphabet(k int) []string {
+func pathAlphabet(k int) []string { return pathAlphabetOver(k, c10Bodies) }
+
+func pathAlphabetOver(k int, bodies []string) []string {
 	var segs []string
 	for _, sg := range []string{".", "#"} {
-		for _, b := range c10Bodies {
+		for _, b := range bodies {
 			segs = append(segs, sg+b)
 		}
 	}
@@ -276,12 +278,23 @@ func runC10(c *ev.Ctx) {
 	}
 	p3 := pathAlphabet(k)
 	pDeep := pathAlphabet(kDeep)
-	c.Rule(fmt.Sprintf("trees = every list/object-rooted tree with <= %d nodes, depth <= 3 over leaves {nil,1,\"s\"} and keys {a,b,0,1} (numeric-looking keys make a '.'/'#' mix-up visible); paths per tree = every resolvable path, every one-step corruption of each (segment dropped, sigil swapped, body emptied, index shifted to n/n+1/n+6/-1/non-numeric, key misspelt, leading sigil dropped, trailing sigil, segment appended) and all %d strings of <= %d segments over {.,#} x {a,b,0,1,2,10,x,empty} with and without the leading sigil; additionally all %d strings of <= %d segments on every tree with <= %d nodes. Oracle: harness tokenizer + step-by-step navigation with Get/KeyExists/Count only. Non-trivial = distinct (tree, path) pair whose path has >= 2 segments and resolves, or is a one-step corruption of a resolvable path.", nodes, len(p3), k, len(pDeep), kDeep, nodesDeep))
+	c.Rule(fmt.Sprintf("trees = every list/object-rooted tree with <= %d nodes, depth <= 3 over leaves {nil,1,\"s\"} and keys {a,b,0,1} (numeric-looking keys make a '.'/'#' mix-up visible), and every tree with <= 4 nodes over the multi-byte / multi-character keys {U+00E9, ab, 0} with the matching path alphabet; paths per tree = every resolvable path, every one-step corruption of each (segment dropped, sigil swapped, body emptied, index shifted to n/n+1/n+6/-1/non-numeric, key misspelt, leading sigil dropped, trailing sigil, segment appended) and all %d strings of <= %d segments over {.,#} x {a,b,0,1,2,10,x,empty} with and without the leading sigil; additionally all %d strings of <= %d segments on every tree with <= %d nodes. Oracle: harness tokenizer + step-by-step navigation with Get/KeyExists/Count only. Non-trivial = distinct (tree, path) pair whose path has >= 2 segments and resolves, or is a one-step corruption of a resolvable path.", nodes, len(p3), k, len(pDeep), kDeep, nodesDeep))
 	c.Assume("tree keys are free of '.' and '#'; index spellings with sign, leading zeros, hex or underscores are outside the path grammar of the statement and not generated (except -1 and non-numeric bodies, which must be Undefined)")
 	stop := func() bool { return c.Expired() || c.TooMany() }
 	en := spec.NewEnum(c10Leaves, c10Keys)
-	var resolved, unresolved int64
-	run := func(maxNodes int, paths []string, tag string, own bool) {
+	runOn := c10Run(c, stop)
+	en2 := spec.NewEnum(c10Leaves, []string{string(rune(0xE9)), "ab", "0"})
+	p2 := pathAlphabetOver(3, []string{string(rune(0xE9)), "ab", "0", "1", "a", ""})
+	runOn(en2, 4, p2, "multi-byte and multi-character keys {U+00E9, ab, 0}: all trees x (own paths + corruptions + all paths of <= 3 segments)", true)
+	runOn(en, nodes, p3, "all trees x (own paths + corruptions + all paths of <= 3 segments)", true)
+	runOn(en, nodesDeep, pDeep, "small trees x all paths of <= 4 segments", false)
+	if c.Expired() {
+		c.Cut("deadline reached")
+	}
+}
+
+func c10Run(c *ev.Ctx, stop func() bool) func(en *spec.Enum, maxNodes int, paths []string, tag string, own bool) {
+	return func(en *spec.Enum, maxNodes int, paths []string, tag string, own bool) {
 		par.Stream(c.Workers, stop, func(emit func(*spec.V) bool) { en.Containers(maxNodes, 3, emit) }, func(w int, v *spec.V) {
 			root := v.Build()
 			var mine []string
@@ -322,8 +335,6 @@ func runC10(c *ev.Ctx) {
 			c.Eval(len(mine) + len(paths))
 			c.Add("resolvable_path_evaluations", int64(nres))
 			c.Add("unresolvable_path_evaluations", int64(nun))
-			_ = resolved
-			_ = unresolved
 			if m := spec.Match(root, v); m != "" {
 				c.Violate(ev.Violation{Sig: "tfread/modified", Msg: fmt.Sprintf("tree %s was modified by GetTF/TypeOfTF: %s", v, m), Witness: v.String()}, nil)
 			}
@@ -336,9 +347,5 @@ func runC10(c *ev.Ctx) {
 			})
 		})
 	}
-	run(nodes, p3, "all trees x (own paths + corruptions + all paths of <= 3 segments)", true)
-	run(nodesDeep, pDeep, "small trees x all paths of <= 4 segments", false)
-	if c.Expired() {
-		c.Cut("deadline reached")
-	}
+
 }
